@@ -47,6 +47,10 @@ impl UserFunction for Tagged {
     fn name(&self) -> &'static str {
         self.name
     }
+    // (what a function answers here has no bearing on whether its name is free)
+    fn cacheable(&self) -> bool {
+        self.serial % 2 == 0
+    }
 }
 
 #[derive(Clone, Debug)]
@@ -376,8 +380,9 @@ fn op_kind(op: &Op) -> &'static str {
     }
 }
 
-const RULE_NAMES: [&str; 4] = ["r1", "R1", "r 1", ""];
-const FN_NAMES: [&str; 8] = ["f1", "F1", "_f", "if", "key", "f-1", "é", "f1"];
+// (rule names and function names are separate name spaces: the pools overlap on purpose)
+const RULE_NAMES: [&str; 7] = ["r1", "R1", "r 1", "", "f1", "_f", "s"];
+const FN_NAMES: [&str; 10] = ["f1", "F1", "_f", "if", "key", "f-1", "é", "f1", "r1", "s"];
 // (symbol names are arbitrary strings to the builder: also spellings with the `:` sigil, blanks and the empty name)
 const SYM_NAMES: [&str; 12] = ["s", "S", "s2", "key", "val", "if", ":s", "s:", " s", "", "::s", ":"];
 
